@@ -522,6 +522,31 @@ func rfc7798Encode(donl bool, f []Tok) []byte {
 	return append(b, tokBytes(f[11])...)
 }
 
+// rfc7798MinLen is the length of the structure a form cannot do without (RFC 7798 4.4.1-4.4.4): a
+// payload cut before it cannot be told from garbage and must be refused (C14_parse_truncated).
+func rfc7798MinLen(donl bool, f []Tok) int {
+	d2 := 0
+	if donl {
+		d2 = 2
+	}
+	switch tokInt(f[0]) {
+	case 0:
+		return 3 + d2
+	case 1:
+		n := 2 + d2 + 2 + len(tokBytes(f[4])) + 2 + len(tokBytes(tokList(tokList(f[5])[0])[1]))
+		if donl {
+			n++
+		}
+		return n
+	case 2:
+		if donl && tokInt(f[3]) != 0 {
+			return 6
+		}
+		return 4
+	}
+	return 5 + int(tokInt(f[5]))
+}
+
 func runRfc7798Form(donl bool, f []Tok) Outcome {
 	wire := rfc7798Encode(donl, f)
 	o := runH265Parse(donl, [][]byte{wire})
@@ -533,6 +558,17 @@ func runRfc7798Form(donl bool, f []Tok) Outcome {
 	fail := func(format string, a ...interface{}) {
 		if o.Fail == "" {
 			o.Fail = fmt.Sprintf(format, a...)
+		}
+	}
+	// "... and reject truncated ones": every prefix shorter than the form's minimal structure
+	for k := 0; k < rfc7798MinLen(donl, f) && k <= len(wire); k++ {
+		t := &codecs.H265Packet{}
+		t.WithDONL(donl)
+		var err error
+		if pn, msg := catch(func() { _, err = t.Unmarshal(append([]byte{}, wire[:k]...)) }); pn {
+			fail("H265Packet.Unmarshal panicked on the %d-byte truncation of %x: %s", k, wire, msg)
+		} else if err == nil {
+			fail("the %d-byte truncation of the well-formed RFC 7798 payload %x (minimal structure %d bytes) was accepted", k, wire, rfc7798MinLen(donl, f))
 		}
 	}
 	d := &codecs.H265Packet{}
@@ -691,7 +727,17 @@ func init() {
 			for i := 0; i < n; i++ {
 				c := r.Fork(uint64(i))
 				// parser clause: a form for the independent RFC 7798 encoder
-				emit(1405, TI(b2i(c.Bool())), genRfc7798Form(c.Fork(77)))
+				wd, form := c.Bool(), genRfc7798Form(c.Fork(77))
+				emit(1405, TI(b2i(wd)), form)
+				if c.Intn(3) == 0 {
+					// the same truncations through the model: every prefix up to two bytes beyond the minimal structure
+					w := rfc7798Encode(wd, form)
+					ps := TList{}
+					for k := 0; k <= rfc7798MinLen(wd, form)+2 && k <= len(w); k++ {
+						ps = append(ps, TBytes(w[:k]))
+					}
+					emit(1402, TI(b2i(wd)), ps)
+				}
 				if c.Intn(3) != 0 {
 					donl, skip := c.Intn(4) == 0, c.Intn(3) == 0
 					mtu := c.Pick(4, 5, 6, 7, 8, 10, 16, 30, 100, 1200, 4+c.Intn(60))
